@@ -41,6 +41,8 @@ def main():
     E = Engine(p, opts)
     t0 = time.time()
     E.run_inits()
+    if opts.get('setup_fn'):
+        E.run_setup(opts['setup_fn'])
     setup = opts.get('setup')
     if setup:
         mod, fn = setup.rsplit(':', 1)
